@@ -58,6 +58,27 @@ type ChainReq struct {
 	Peer  string `json:"peer,omitempty"` // source ip (port implied: relay 67 / client 68 / 546 / 547)
 	Port  int    `json:"port,omitempty"`
 	Async bool   `json:"async,omitempty"` // run concurrently with the following async requests
+	// Write, if set, rewrites a file under {DIR} with a single pwrite at offset 0
+	// (no truncation) before the datagram (if any) is handled.
+	Write *FileWrite `json:"write,omitempty"`
+	// Poll, if set, repeats the datagram until the reply contains Until (hex) or
+	// MaxPolls is reached; the result lists the distinct consecutive replies.
+	Poll *PollSpec `json:"poll,omitempty"`
+	SleepMs int    `json:"sleep_ms,omitempty"`
+}
+
+type FileWrite struct {
+	Name    string `json:"name"`
+	Content string `json:"content"`
+	Create  bool   `json:"create,omitempty"` // create/truncate instead of pwrite
+}
+
+type PollSpec struct {
+	Until      string `json:"until"`
+	MaxPolls   int    `json:"max_polls"`
+	IntervalMs int    `json:"interval_ms"`
+	// Hold: keep polling MaxPolls times even when Until matched (stability check)
+	Hold bool `json:"hold,omitempty"`
 }
 
 type ChainJob struct {
@@ -89,6 +110,11 @@ type ReqRes struct {
 	PreNil bool            `json:"pre_nil,omitempty"`
 	Trace []SynthEvent     `json:"trace,omitempty"`
 	Ns   int64             `json:"ns"`
+	// for Poll: the sequence of distinct consecutive first-reply payloads ("" = no reply), and the number of polls
+	PollSeq []string `json:"poll_seq,omitempty"`
+	Polls   int      `json:"polls,omitempty"`
+	Matched bool     `json:"matched,omitempty"`
+	WriteErr string  `json:"write_err,omitempty"`
 }
 
 type ChainOut struct {
@@ -230,12 +256,57 @@ func chainChild() {
 		pre4, pre6, preSet = nil, nil, false
 		t0 := time.Now()
 		var caps []server.VerifCapture
-		if rq.V6 {
-			caps = s6.Do(data, rq.RxIf, peer)
-		} else {
-			caps = s4.Do(data, rq.RxIf, peer)
+		rr := ReqRes{I: i}
+		if rq.Write != nil {
+			path := filepath.Join(dir, rq.Write.Name)
+			if rq.Write.Create {
+				if err := os.WriteFile(path, []byte(rq.Write.Content), 0o644); err != nil {
+					rr.WriteErr = err.Error()
+				}
+			} else if f, err := os.OpenFile(path, os.O_WRONLY, 0); err != nil {
+				rr.WriteErr = err.Error()
+			} else {
+				if _, err := f.WriteAt([]byte(rq.Write.Content), 0); err != nil {
+					rr.WriteErr = err.Error()
+				}
+				f.Close()
+			}
 		}
-		rr := ReqRes{I: i, Caps: toCaps(caps), Ns: int64(time.Since(t0)), Trace: rec.take()}
+		if rq.SleepMs > 0 {
+			time.Sleep(time.Duration(rq.SleepMs) * time.Millisecond)
+		}
+		do := func() []server.VerifCapture {
+			if rq.V6 {
+				return s6.Do(data, rq.RxIf, peer)
+			}
+			return s4.Do(data, rq.RxIf, peer)
+		}
+		if rq.Poll != nil && len(data) > 0 {
+			until, _ := hex.DecodeString(rq.Poll.Until)
+			last := "\x00none"
+			for rr.Polls < rq.Poll.MaxPolls {
+				caps = do()
+				rr.Polls++
+				cur := ""
+				if len(caps) > 0 {
+					cur = hex.EncodeToString(caps[0].Payload)
+				}
+				if cur != last {
+					rr.PollSeq = append(rr.PollSeq, cur)
+					last = cur
+				}
+				if len(caps) > 0 && bytes.Contains(caps[0].Payload, until) {
+					rr.Matched = true
+					if !rq.Poll.Hold {
+						break
+					}
+				}
+				time.Sleep(time.Duration(rq.Poll.IntervalMs) * time.Millisecond)
+			}
+		} else if len(data) > 0 {
+			caps = do()
+		}
+		rr.Caps, rr.Ns, rr.Trace = toCaps(caps), int64(time.Since(t0)), rec.take()
 		if job.Pre && preSet {
 			if rq.V6 {
 				if pre6 == nil {
